@@ -26,8 +26,9 @@ from .. import shapes
 from .. import sym as S
 from ..core import Stats, Unsupported, Violation, ctx, explore
 
-if "/repo" not in sys.path:
-    sys.path.insert(0, "/repo")
+_REPO = __import__("os").environ.get("KIO_REPO", "/repo")
+if _REPO not in sys.path:
+    sys.path.insert(0, _REPO)
 
 I31 = (-(2**31), 2**31)
 
